@@ -1,4 +1,5 @@
 CONSTANTS
+  W = 4
   Count = 1
   Ignore = {4}
   Addr = {1, 2, 3, 4}
